@@ -209,7 +209,7 @@ func checkC16(res *world.Result, s *simrt.Sim, sc *Scenario, logs []*PlugLog, ho
 			due = due && ps.handshakeOK() && ps.aliveAfterHandshake() && ps.advertisesSG() && genReplyDelivered(ps)
 		}
 		if due {
-			hostWhy = append(hostWhy, fmt.Sprintf("plugins %s and %s both answer with plug_shared/same.go", a.Name, b.Name))
+			hostWhy = append(hostWhy, fmt.Sprintf("plugins %s and %s answer with one file twice", a.Name, b.Name))
 			res.Count("c16.conflict-due", 1)
 			// a plugin that answers with a file another plugin has already answered with is a
 			// plugin that failed: the failure names it (or the one it collides with)
